@@ -33,15 +33,32 @@ def variantOf (l : List EffAt) : Option Variant :=
   else if spine l = [.memEnqueue, .queueSet] then some .orig
   else none
 
+/-- the kind of an injected error value: every sentinel / error class that Go code commonly
+distinguishes with `errors.Is` / `==`. The CURRENT `copyBlob` / `setError` / `enqueue` distinguish
+none of them (any non-nil error is a failure); the kinds exist so that the correspondence exercises
+each of them on the real code. -/
+inductive ErrKind
+  | generic        -- an opaque error
+  | notExist       -- `os.ErrNotExist`
+  | pathNotExist   -- `&fs.PathError{Err: syscall.ENOENT}` (satisfies `errors.Is(err, os.ErrNotExist)`)
+  | canceled       -- `context.Canceled`
+  | deadline       -- `context.DeadlineExceeded`
+  | eof            -- `io.EOF`
+  | unexpectedEOF  -- `io.ErrUnexpectedEOF`
+  | corruptBlob    -- `blobserver.ErrCorruptBlob`
+  | notFound       -- `sorted.ErrNotFound`
+deriving DecidableEq, Repr
+
 /-- outcome of one copy attempt, chosen by the environment (pkg/server/sync.go:640-672) -/
 inductive Fault
   | ok
-  | fetchErr   -- `sh.from.Fetch` fails
-  | fetchSize  -- `fromSize != sb.Size`
-  | shortRead  -- `io.ReadFull` fails
-  | corrupt    -- right size, wrong bytes
-  | destErr    -- `sh.to.ReceiveBlob` fails, nothing stored
-  | destSize   -- destination stored the blob but reports another size
+  | fetchErr (k : ErrKind)   -- `sh.from.Fetch` fails with an error of kind `k`
+  | fetchSize                -- `fromSize != sb.Size`
+  | shortRead (k : ErrKind)  -- the source reader fails half way with an error of kind `k` (`io.ReadFull` fails)
+  | readEmpty                -- the source reader returns `io.EOF` before the first byte
+  | corrupt                  -- right size, wrong bytes
+  | destErr (k : ErrKind)    -- `sh.to.ReceiveBlob` fails with an error of kind `k`, nothing stored
+  | destSize                 -- destination stored the blob but reports another size
 deriving DecidableEq, Repr
 
 /-- progress of one in-flight upload -/
@@ -98,7 +115,7 @@ def readQueueToMemory (need rows : List Nat) : List Nat := rows.foldl (fun n i =
 /-- what the digest check of `copyBlob` sees: `none` = the copy failed before the check -/
 def fetched (f : Fault) (i : Nat) : Option Nat :=
   match f with
-  | .fetchErr | .fetchSize | .shortRead => none
+  | .fetchErr _ | .fetchSize | .shortRead _ | .readEmpty => none
   | .corrupt => some (i + 1)
   | _ => some i
 
@@ -114,7 +131,7 @@ def xfer (src : List Nat) (dst : List (Nat × Nat)) (i : Nat) (f : Fault) : List
     | some d =>
       if hashMatches i d then
         match f with
-        | .destErr => (dst, false)
+        | .destErr _ => (dst, false)
         | .destSize => (dstIns i d dst, false)
         | _ => (dstIns i d dst, true)
       else (dst, false)
